@@ -5,7 +5,7 @@ From Dht Require Import Base Query.
 From DhtGen Require Import Params.
 
 (* ------------------------------------------------------------------ reachability *)
-Definition reachable (c : qcfg) (s : qstate) : Prop := exists c0 ls, s = run c c0 ls.
+Definition reachable (c : qcfg) (s : qstate) : Prop := exists c0 b0 ls, s = run c c0 b0 ls.
 
 Definition pre_select (p : cpc) : Prop := p = CStart \/ p = CSelect.
 Definition post_cancel (p : cpc) : Prop := p = CJoin \/ p = CDereg \/ p = CReturned.
@@ -50,7 +50,7 @@ Record QInv (c : qcfg) (s : qstate) : Prop := mkQInv {
   i_ret_unreg : q_caller s = CReturned -> q_registered s = false
 }.
 
-Lemma inv_init c c0 : QInv c (q_init c0).
+Lemma inv_init c c0 b0 : QInv c (q_init c0 b0).
 Proof.
   constructor; simpl; unfold pre_select, post_cancel; intros;
     repeat split; intros; try tauto; try congruence; try lia; try discriminate;
@@ -92,7 +92,7 @@ Ltac fin :=
 Theorem inv_step c s l : QInv c s -> enabled c s l = true -> QInv c (step c s l).
 Proof.
   intros I En.
-  destruct s as [ca se ha rg rc sc cx cn cl ns nw nd fl pp rs].
+  destruct s as [ca se ha rg rc sc cx cn cl ns nw nd fl pp rs bu ra].
   destruct I as [Isends Istart Iidle Idelays Iwrites Iseldone Ichandone Iresult Icancel Ijoined Ireg
                    Ipopped Irchan Irreply Irctx Icctx Itimeout Isenderr Icause Iret].
   simpl in *.
@@ -174,11 +174,11 @@ Lemma inv_exec c ls : forall s, QInv c s -> QInv c (exec c s ls).
 Proof. induction ls as [|l ls IH]; intros s I; simpl; [assumption|]. apply IH. apply inv_step_en. assumption. Qed.
 
 Theorem inv_reachable c s : reachable c s -> QInv c s.
-Proof. intros (c0 & ls & ->). apply inv_exec. apply inv_init. Qed.
+Proof. intros (c0 & b0 & ls & ->). apply inv_exec. apply inv_init. Qed.
 
 Lemma reachable_exec c s ls : reachable c s -> reachable c (exec c s ls).
 Proof.
-  intros (c0 & l0 & ->). exists c0, (l0 ++ ls). unfold run, exec. rewrite fold_left_app. reflexivity.
+  intros (c0 & b0 & l0 & ->). exists c0, b0, (l0 ++ ls). unfold run, exec. rewrite fold_left_app. reflexivity.
 Qed.
 
 (* ------------------------------------------------------------------ C14_sends *)
@@ -205,7 +205,7 @@ Proof. destruct n; [congruence|reflexivity]. Qed.
 Theorem mu_decreases c s l : QInv c s -> enabled c s l = true -> mu c (step c s l) < mu c s.
 Proof.
   intros I En.
-  destruct s as [ca se ha rg rc sc cx cn cl ns nw nd fl pp rs].
+  destruct s as [ca se ha rg rc sc cx cn cl ns nw nd fl pp rs bu ra].
   pose proof (i_sends c _ I) as Isends. pose proof (i_start c _ I) as Istart.
   pose proof (i_reg c _ I) as Ireg. pose proof (i_chan_done c _ I) as Ichandone.
   unfold mu. simpl in *.
@@ -225,7 +225,11 @@ Proof.
   - exists (ESendErr CClosed). split; [reflexivity|]. simpl. unfold cause_ok. rewrite F, L, Cl. reflexivity.
   - destruct (qc_blocked c) eqn:B.
     + exists (ESendErr CBlocked). split; [reflexivity|]. simpl. unfold cause_ok. rewrite F, L, Cl, B. reflexivity.
-    + exists ESendOk. split; [reflexivity|]. simpl. rewrite F, L, Cl, B. reflexivity.
+    + destruct (no_budget c s) eqn:NB.
+      * exists (ESendErr CRate). split; [reflexivity|]. simpl. unfold cause_ok. rewrite F, L, Cl, B.
+        unfold no_budget in NB. apply andb_prop in NB. destruct NB as [NB E]. apply andb_prop in NB. destruct NB as [R X].
+        rewrite R, E, orb_true_r. reflexivity.
+      * exists ESendOk. split; [reflexivity|]. simpl. rewrite F, L, Cl, B, NB. reflexivity.
 Qed.
 
 Lemma sender_progress c s f :
@@ -358,7 +362,7 @@ Lemma result_stable_step c s l r : q_result s = Some r -> QInv c s -> q_result (
 Proof.
   intros E I. unfold step_en. destruct (enabled c s l) eqn:En; [|assumption].
   pose proof (i_result c s I) as [_ B]. unfold pre_select in B.
-  destruct s as [ca se ha rg rc sc cx cn cl ns nw nd fl pp rs]. simpl in *.
+  destruct s as [ca se ha rg rc sc cx cn cl ns nw nd fl pp rs bu ra]. simpl in *.
   destruct l; simpl in *; try assumption; boolhyps; pcs; try assumption;
     try (assert (X : rs = None) by (apply B; auto); congruence).
 Qed.
@@ -449,21 +453,144 @@ Proof. induction ls as [|l ls IH]; intros s I; simpl; [assumption|]. apply IH. a
 
 (* a query started on a closed server writes nothing and can only fail: with the error of the
    closed check, or with the caller's context error if that was cancelled as well *)
-Theorem closed_query_fails c ls :
+Theorem closed_query_fails c b0 ls :
   1 <= qc_tries c ->
-  let s := run c true ls in
+  let s := run c true b0 ls in
   q_writes s = 0 /\
   (forall r, q_result s = Some r -> r = RSendErr CClosed \/ (r = RCtx /\ q_ctx s = true)).
 Proof.
   intros T s. subst s. unfold run.
-  assert (CInv (q_init true)) as I0 by (constructor; simpl; try reflexivity; intros; discriminate).
+  assert (CInv (q_init true b0)) as I0 by (constructor; simpl; try reflexivity; intros; discriminate).
   destruct (cinv_exec c ls _ I0) as [Cl W P F]. split; [exact W|].
   intros r E.
-  assert (reachable c (exec c (q_init true) ls)) as R by (exists true, ls; reflexivity).
+  assert (reachable c (exec c (q_init true b0) ls)) as R by (exists true, b0, ls; reflexivity).
   pose proof (result_class c _ r R E) as K.
   destruct r.
   - destruct K as [K _]. congruence.
   - right. split; [reflexivity|assumption].
   - destruct K as (_ & W1 & _). lia.
   - destruct K as (K & _). left. f_equal. apply F. assumption.
+Qed.
+
+(* ------------------------------------------------------------------ C20: the query's rate policy *)
+(* the per-send decision, exactly the closure in transactionQuerySender *)
+Theorem query_policy rl w :
+  send_wait rl w = (if Nat.eqb w 0 then negb (rl_no_wait_first rl) else rl_wait_on_retries rl) /\
+  send_rated rl w = (negb (rl_not_any rl) && (if Nat.eqb w 0 then negb (rl_not_first rl) else true)).
+Proof. destruct w; split; reflexivity. Qed.
+
+(* the named policies of the harness grid, send by send *)
+Theorem query_policy_table w :
+  send_rated rl_zero w = true /\
+  send_rated (mkRL true false false false) w = negb (Nat.eqb w 0) /\
+  send_rated (mkRL false true false false) w = false /\
+  send_rated (mkRL true true false false) w = false /\
+  send_rated (mkRL false false true false) w = true /\
+  send_rated (mkRL false false false true) w = true /\
+  send_wait rl_zero w = Nat.eqb w 0 /\
+  send_wait (mkRL false false true false) w = true /\
+  send_wait (mkRL false false false true) w = false.
+Proof. destruct w; repeat split; reflexivity. Qed.
+
+(* budget conservation: units taken by this query + units left = units at the start, on every schedule *)
+Record BInv (c : qcfg) (b0 : nat) (s : qstate) : Prop := mkBInv {
+  bi_sum : qc_exact c = true -> q_rated s + q_budget s = b0;
+  bi_rated_le : q_rated s <= q_writes s }.
+
+Lemma binv_step c b0 s l : BInv c b0 s -> BInv c b0 (step_en c s l).
+Proof.
+  intros [Sm Le]. unfold step_en. destruct (enabled c s l) eqn:E; [|constructor; assumption].
+  destruct l; simpl; try (constructor; simpl; assumption).
+  - destruct (q_senderr_chan s); constructor; simpl; assumption.
+  - (* ESendOk *)
+    simpl in E. unfold no_budget, budget_after, rated_after in *.
+    destruct (rated_now c s) eqn:R; simpl in *; constructor; simpl; try lia.
+    + intros X. specialize (Sm X). rewrite X in E. simpl in E.
+      repeat (apply andb_prop in E; destruct E as [E ?]).
+      destruct (q_budget s); [discriminate|]. simpl. lia.
+    + assumption.
+  - (* ESendErr *)
+    simpl in E. unfold cause_ok, no_budget, budget_after, rated_after in *.
+    destruct c0; simpl; try (constructor; simpl; assumption).
+    destruct (rated_now c s) eqn:R; simpl in *; constructor; simpl; try lia; try assumption.
+    intros X. specialize (Sm X). rewrite X in E. simpl in E.
+    repeat (apply andb_prop in E; destruct E as [E ?]).
+    destruct (q_closed s); [discriminate|]. destruct (qc_blocked c); [discriminate|].
+    destruct (q_budget s); [discriminate|]. simpl. lia.
+Qed.
+
+Lemma binv_exec c b0 ls : forall s, BInv c b0 s -> BInv c b0 (exec c s ls).
+Proof. induction ls as [|l ls IH]; intros s I; simpl; [assumption|]. apply IH. apply binv_step. assumption. Qed.
+
+(* rated sends of a query never exceed the budget that was available; total sends <= NumTries;
+   and a send is attempted only if every earlier one succeeded *)
+Theorem query_budget c c0 b0 ls :
+  let s := run c c0 b0 ls in
+  (qc_exact c = true -> q_rated s <= b0 /\ q_rated s + q_budget s = b0) /\
+  q_rated s <= q_writes s /\ q_writes s <= q_sends s /\ q_sends s <= qc_tries c /\
+  (forall x, (enabled c s ESendOk = true \/ enabled c s (ESendErr x) = true) -> q_fail s = None /\ q_writes s = q_sends s).
+Proof.
+  intros s. subst s.
+  assert (BInv c b0 (q_init c0 b0)) as I0 by (constructor; simpl; intros; lia).
+  destruct (binv_exec c b0 ls _ I0) as [Sm Le]. fold (run c c0 b0 ls) in *.
+  assert (reachable c (run c c0 b0 ls)) as R by (exists c0, b0, ls; reflexivity).
+  destruct (sends_bound c _ R) as [W S1].
+  split; [intros X; specialize (Sm X); split; [lia|assumption]|].
+  repeat split; try assumption.
+  - pose proof (inv_reachable c _ R) as I. pose proof (i_writes c _ I) as Wf.
+    destruct (q_fail (run c c0 b0 ls)) as [y|] eqn:F; [|reflexivity].
+    destruct Wf as [Sd _]. exfalso. destruct H as [E|E]; simpl in E; unfold sender_fired in E; rewrite Sd in E; discriminate.
+  - pose proof (inv_reachable c _ R) as I. pose proof (i_writes c _ I) as Wf.
+    destruct (q_fail (run c c0 b0 ls)) as [y|] eqn:F; [|assumption].
+    destruct Wf as [Sd _]. exfalso. destruct H as [E|E]; simpl in E; unfold sender_fired in E; rewrite Sd in E; discriminate.
+Qed.
+
+(* a rated first send against an empty exact budget: nothing is ever written and the query fails *)
+Record NInv (c : qcfg) (s : qstate) : Prop := mkNInv {
+  ni_budget : q_budget s = 0;
+  ni_writes : q_writes s = 0;
+  ni_popped : True;
+  ni_fail : forall x, q_fail s = Some x -> x = CRate \/ x = CClosed \/ x = CBlocked }.
+
+Lemma ninv_step c s l :
+  qc_exact c = true -> send_rated (qc_rl c) 0 = true -> NInv c s -> NInv c (step_en c s l).
+Proof.
+  intros X R0 [B W _ F]. unfold step_en. destruct (enabled c s l) eqn:E; [|constructor; trivial].
+  destruct l; simpl; unfold selected, sender_done; try solve [constructor; simpl; trivial].
+  - destruct (q_senderr_chan s); constructor; simpl; trivial.
+  - simpl in E. unfold no_budget, rated_now in E. rewrite W, R0, X, B in E. simpl in E.
+    rewrite !andb_false_r in E. discriminate.
+  - simpl in E. unfold cause_ok, no_budget, rated_now in E. rewrite W, R0, X, B in E. simpl in E.
+    destruct (q_closed s), (qc_blocked c), c0; simpl in E; rewrite ?andb_false_r in E; try discriminate;
+      constructor; simpl; trivial; intros x Hx; injection Hx as <-; tauto.
+Qed.
+
+Lemma ninv_exec c ls : qc_exact c = true -> send_rated (qc_rl c) 0 = true ->
+  forall s, NInv c s -> NInv c (exec c s ls).
+Proof. intros X R0. induction ls as [|l ls IH]; intros s I; simpl; [assumption|]. apply IH. apply ninv_step; assumption. Qed.
+
+Theorem query_no_budget_fails c c0 ls :
+  1 <= qc_tries c -> qc_exact c = true -> send_rated (qc_rl c) 0 = true ->
+  let s := run c c0 0 ls in
+  q_writes s = 0 /\ q_rated s = 0 /\
+  (forall r, q_result s = Some r ->
+     (exists x, r = RSendErr x /\ (x = CRate \/ (x = CClosed /\ q_closed s = true) \/ (x = CBlocked /\ qc_blocked c = true))) \/
+     (r = RCtx /\ q_ctx s = true) \/ r = RReply).
+Proof.
+  intros T X R0 s. subst s. unfold run.
+  assert (NInv c (q_init c0 0)) as I0 by (constructor; simpl; try reflexivity; trivial; intros; discriminate).
+  destruct (ninv_exec c ls X R0 _ I0) as [B W _ F].
+  assert (BInv c 0 (q_init c0 0)) as J0 by (constructor; simpl; intros; lia).
+  destruct (binv_exec c 0 ls _ J0) as [_ Le].
+  split; [exact W|]. split; [lia|].
+  intros r E.
+  assert (reachable c (exec c (q_init c0 0) ls)) as R by (exists c0, 0, ls; reflexivity).
+  pose proof (result_class c _ r R E) as K.
+  destruct r.
+  - right; right; reflexivity.
+  - right; left. split; [reflexivity|assumption].
+  - destruct K as (_ & W1 & _). lia.
+  - destruct K as (K & K1 & K2). left. exists c1. split; [reflexivity|].
+    destruct (F _ K) as [-> | [-> | ->]]; [left; reflexivity|right; left; split; [reflexivity|apply K1; reflexivity]|
+                                       right; right; split; [reflexivity|apply K2; reflexivity]].
 Qed.
